@@ -5,6 +5,11 @@ import QclibModel.Proofs.SparseOrder
 import QclibModel.Proofs.SparseSelect
 import QclibModel.Proofs.SparseSearch
 import QclibModel.Proofs.SparsePivotProof
+import QclibModel.Proofs.SparseCvoTotalMain
+import QclibModel.Proofs.SparseCvoTotalRealAmp
+import QclibModel.Proofs.SparseCvoTotalRccxDecomp
+import QclibModel.Proofs.SparseMergeTotal
+import QclibModel.Proofs.SparsePivotTotalK
 /-
   C06 — sparse state preparation (merge.py, pivot.py, cvoqram.py).
   Property theorems only; models in Model/Sparse*.lean, proofs in Proofs/Sparse*.lean.
@@ -191,5 +196,268 @@ example : inLow 3 1 [false, false, true] ∧ ¬ inLow 3 1 [true, false, true] :=
     have : i = 0 ∨ i = 1 := by omega
     rcases this with rfl | rfl <;> rfl
   · intro h; exact absurd (h 0 (by omega)) (by decide)
+
+/-- **C06 (CVO-QRAM, the whole circuit).**  For every `n ≥ 1`, both register layouts (`with_aux`)
+and every `mcg_method`: let `d` be a dictionary of distinct `n`-bit patterns sorted by non-decreasing
+Hamming weight with non-zero amplitudes `x_k` (each a Python `complex`, or a real scalar of either
+sign), `Σ|x_k|² = 1`.  The circuit the model
+`cvoInit` builds — `x(flag)`, then per pattern the flip-flop CXs from the flag, the rotation
+`U(α,β,−β)` of the flag controlled on the ones of the pattern (an ideal multi-controlled gate
+without auxiliaries; the `rccx` compute / `cu` / uncompute ladder of `_mcuvchain` with them, `rccx`
+being qiskit's relative-phase Toffoli matrix with its `±i`, `−1` phases), and the flip-flop back
+(omitted after the last pattern) — maps every state `ψ₀` supported on "all circuit wires `0`"
+(spectator wires arbitrary) to the state with
+* amplitude `x_k · ψ₀(cleared label)` on each label whose memory register carries pattern `k` and
+  whose flag and ancillas are `0` — exactly, global phase included;
+* `0` on labels whose memory register carries no listed pattern;
+* `0` on every label with the flag or an ancilla set (both returned to `|0⟩`).
+Induction over the patterns with the invariant `Σ_{i<j} x_i|p_i⟩|0⟩ + √(1−Σ_{i<j}|x_i|²)·|0…0⟩|flag⟩`;
+the step uses `C06_cvo_order` (the controls fire only on the flag branch) and `C06_cvo_amp` (the
+rotation loads `x_j` and leaves `√(norm − |x_j|²)`). -/
+theorem C06_cvo_total (n : Nat) (hn : 1 ≤ n) (aux : Bool) (method : String) (d : Dict ℝ)
+    (hlen : ∀ kv ∈ d, kv.1.length = n) (hnd : d.keys.Pairwise (· ≠ ·))
+    (hs : d.keys.Pairwise (fun a b => weight a ≤ weight b))
+    (hx : ∀ kv ∈ d, (kv.2.cplx = false → kv.2.im = 0) ∧ 0 < kv.2.re ^ 2 + kv.2.im ^ 2)
+    (hsum : sqSum d = 1)
+    (dn : List Nat → List (Amp ℝ) → State ℂ → State ℂ) (ψ0 : State ℂ)
+    (hψ0 : ∀ b w, w < cvoWidth n aux → b w = true → ψ0 b = 0) (b : Bits) :
+    let out := semSG Complex.I dn (cvoInit n aux method d).1 ψ0 b
+    let clean := cvoAncClr n aux b && !b 0
+    (∀ kv ∈ d, carries n aux kv.1 b → clean = true → out = kv.2.toC * ψ0 (cvoClr n aux b))
+    ∧ ((∀ kv ∈ d, ¬ carries n aux kv.1 b) → out = 0)
+    ∧ (clean = false → out = 0) := by
+  have hlenk : ∀ p ∈ d.keys, p.length = n := by
+    intro p hp
+    obtain ⟨kv, hkv, rfl⟩ := List.mem_map.mp hp
+    exact hlen kv hkv
+  have hrot : ∀ kv ∈ d, RotOk kv.2 := by
+    intro kv hkv norm hle
+    cases hc : kv.2.cplx
+    · exact cvo_rot_realamp kv.2 hc ((hx kv hkv).1 hc) norm (hx kv hkv).2 hle
+    · exact C06_cvo_amp kv.2 hc norm (hx kv hkv).2 hle
+  have htot := cvo_total_of n hn aux method d hlen hrot hsum
+    (C06_cvo_order n aux d.keys hlenk hnd hs).1 dn ψ0 hψ0
+  intro out clean
+  have hout : out = cvoDone n aux ψ0 (toCs d) b := congrFun htot b
+  refine ⟨?_, ?_, ?_⟩
+  · intro kv hkv hc hcl
+    rw [hout]
+    unfold cvoDone
+    rw [if_pos hcl, loaded_key n aux d hlen hnd kv.1 kv.2 hkv b hc]
+  · intro hno
+    rw [hout]
+    unfold cvoDone
+    rw [loaded_nokey n aux d b hno]
+    simp
+  · intro hcl
+    rw [hout]
+    unfold cvoDone
+    have hcl' : (cvoAncClr n aux b && !b 0) = false := hcl
+    rw [if_neg (by rw [hcl']; simp)]
+
+/-- Non-vacuity of `C06_cvo_total`: `{01: 3/5, 11: 4i/5}` on `n = 2` with auxiliaries, from the
+state that is `1` exactly on the labels with all four circuit wires `0`. -/
+example : ∃ (d : Dict ℝ) (ψ0 : State ℂ),
+    (∀ kv ∈ d, kv.1.length = 2) ∧ d.keys.Pairwise (· ≠ ·)
+    ∧ d.keys.Pairwise (fun a b => weight a ≤ weight b)
+    ∧ (∀ kv ∈ d, (kv.2.cplx = false → kv.2.im = 0) ∧ 0 < kv.2.re ^ 2 + kv.2.im ^ 2)
+    ∧ sqSum d = 1
+    ∧ (∀ b w, w < cvoWidth 2 true → b w = true → ψ0 b = 0) ∧ ψ0 (fun _ => false) = 1 := by
+  refine ⟨[([false, true], ⟨3 / 5, 0, true⟩), ([true, true], ⟨0, 4 / 5, true⟩)],
+    fun b => if (List.range (cvoWidth 2 true)).all (fun w => !b w) then 1 else 0,
+    ?_, by decide, by decide, ?_, ?_, ?_, ?_⟩
+  · intro kv hkv; simp at hkv; rcases hkv with rfl | rfl <;> rfl
+  · intro kv hkv; simp at hkv; rcases hkv with rfl | rfl <;> norm_num
+  · norm_num [sqSum]
+  · intro b w hw hb
+    have : (List.range (cvoWidth 2 true)).all (fun w => !b w) = false := by
+      rw [List.all_eq_false]
+      exact ⟨w, List.mem_range.mpr hw, by simp [hb]⟩
+    simp [this]
+  · simp [cvoWidth]
+
+/-- **C06 (the `rccx` of the ladders).**  qiskit's `RCCXGate` definition
+`h t; t t; cx b t; tdg t; cx a t; t t; cx b t; tdg t; h t` (with `T = p(π/4)`) denotes, for every
+state and all distinct wires, exactly the matrix the sparse-gate semantics gives to `rccx a b t`
+(`applyRccx`): `Y` on the target when `a = b = 1`, `Z` when `a = 1, b = 0`, identity when `a = 0`.
+So the relative phases `±i`, `−1` that `C06_cvo_total` cancels in the compute/uncompute ladder are
+the ones of the real gate. -/
+theorem C06_rccx_matrix (a b t : Nat) (hat : a ≠ t) (hbt : b ≠ t) (ψ : State ℂ) :
+    sem (rccxCirc (Real.pi / 4) (-(Real.pi / 4)) a b t) ψ = applyRccx Complex.I a b t ψ :=
+  rccx_decomp_real a b t hat hbt ψ
+
+example : (0 : Nat) ≠ 2 ∧ (1 : Nat) ≠ 2 := by decide
+
+/-- **C06 (MergeInitialize, the whole circuit).**  For every `n` and every dictionary `d` of `m ≥ 2`
+distinct `n`-character keys with non-zero amplitudes — Python `complex` values, or real scalars
+that are non-negative (a negative real scalar is outside the theorem, cf. `C06_merge_rot`):
+* the construction succeeds, `mergeInit d = some (gates, evs)`: `_select_strings` never raises
+  (`C06_merge_select`), every dictionary lookup succeeds, the `while` loop ends after `m − 1`
+  passes (each pass removes exactly one key);
+* the circuit `gates` — the generated list reversed by `reverse_ops`, the merge rotations as
+  emitted, the opaque multi-controlled `U` denoting the ideal multi-controlled gate — prepares
+  `Σ_k a_k|k⟩` **exactly**, global phase included and zero on every non-key, from `‖a‖·|0…0⟩`: for
+  every `ψ₀` supported on labels whose wires `0 … n−1` are `0` (spectators arbitrary) the output
+  amplitude on a label `b` is the amplitude of the key on wires `0 … n−1` of `b` (`0` if that is
+  not a key) times `ψ₀` of the cleared label.  Key character `i` ↔ wire `i`.
+Induction over the passes of the loop, backwards through the reversed circuit: each pass maps the
+state of the merged dictionary (norm `‖(a₁,a₂)‖` on `bitstr1`, nothing on `bitstr2`) to the state of
+the dictionary before it — the controls hold exactly on the pair (`C06_merge_select`), the second
+column of `U(θ,φ,λ)` restores `(a₂, a₁)` (`C06_merge_rot`), the `x`/`cx` relabellings are undone
+(`C06_track`) — and the final `X` layer moves `|0…0⟩` to the last key.
+`m = 1` is excluded: the code then emits only `x` gates and the amplitude's phase is lost. -/
+theorem C06_merge_total (iu : ℂ) (dn : List Nat → List (Amp ℝ) → State ℂ → State ℂ) (n : Nat)
+    (d : Dict ℝ) (hnd : d.keys.Nodup) (hlen : ∀ k ∈ d.keys, k.length = n) (hm : 2 ≤ d.length)
+    (hnz : ∀ kv ∈ d, kv.2.toC ≠ 0)
+    (hreal : ∀ kv ∈ d, kv.2.cplx = false → kv.2.im = 0 ∧ 0 ≤ kv.2.re) :
+    ∃ gates evs, mergeInit d = some (gates, evs) ∧
+      ∀ ψ0 : State ℂ, (∀ b : Bits, (∃ i, i < n ∧ b i = true) → ψ0 b = 0) →
+        ∀ b : Bits, semSG iu dn gates (scale ((Mrg.dictNorm d : ℝ) : ℂ) ψ0) b
+          = Mrg.ampOf d (Mrg.wireKey n b) * ψ0 (Mrg.clr n b) :=
+  Mrg.merge_total iu dn n d hnd hlen hm hnz hreal
+
+/-- **C06 (MergeInitialize, whole circuit, unit vector).**  `C06_merge_total` for complex amplitudes
+with `Σ|a_k|² = 1`: started on `ψ₀` itself (amplitude `1` on `|0…0⟩`) the circuit puts exactly
+`a_k` on key `k` and `0` elsewhere. -/
+theorem C06_merge_total_unit (iu : ℂ) (dn : List Nat → List (Amp ℝ) → State ℂ → State ℂ)
+    (n : Nat) (d : Dict ℝ) (hnd : d.keys.Nodup) (hlen : ∀ k ∈ d.keys, k.length = n)
+    (hm : 2 ≤ d.length) (hc : ∀ kv ∈ d, kv.2.cplx = true) (hnz : ∀ kv ∈ d, kv.2.toC ≠ 0)
+    (hunit : Mrg.dictSq d = 1) :
+    ∃ gates evs, mergeInit d = some (gates, evs) ∧
+      ∀ ψ0 : State ℂ, (∀ b : Bits, (∃ i, i < n ∧ b i = true) → ψ0 b = 0) →
+        ∀ b : Bits, semSG iu dn gates ψ0 b = Mrg.ampOf d (Mrg.wireKey n b) * ψ0 (Mrg.clr n b) :=
+  Mrg.merge_total_unit iu dn n d hnd hlen hm hc hnz hunit
+
+/-- Non-vacuity of both merge theorems: `{'00': 0.6, '11': 0.8j}` satisfies every hypothesis, and
+the support hypothesis on `ψ₀` is met by a non-zero state. -/
+example : Mrg.exDict.keys.Nodup ∧ (∀ k ∈ Mrg.exDict.keys, k.length = 2) ∧ 2 ≤ Mrg.exDict.length ∧
+    (∀ kv ∈ Mrg.exDict, kv.2.cplx = true) ∧ (∀ kv ∈ Mrg.exDict, kv.2.toC ≠ 0) ∧
+    Mrg.dictSq Mrg.exDict = 1 := Mrg.exDict_hyps
+
+example : ∃ ψ0 : State ℂ, (∀ b : Bits, (∃ i, i < 2 ∧ b i = true) → ψ0 b = 0) ∧
+    ψ0 (fun _ => false) = 1 := by
+  refine ⟨fun b => if b 0 || b 1 then 0 else 1, ?_, by simp⟩
+  rintro b ⟨i, hi, hb⟩
+  have : i = 0 ∨ i = 1 := by omega
+  rcases this with rfl | rfl <;> simp [hb]
+
+/-- **C06 (pivot step, the gaps of `C06_pivot_step_partial` closed — gates).**  Characters of a key
+sit on wires `r 0, …, r (n−1)` (`r` injective).  For every `index_differ = d` among the high positions
+(`d < lo = n − t`), every `ctrl_state`, every `target_cx` list (distinct positions `< n`, not
+containing `d`) and every `index_zero`:
+(1) on **every** label `b`, running the emitted CX fan (with `ctrl_state`), X sandwich,
+multi-controlled X on the low-block wires and X sandwich (`stepB`, the classical action of the
+gates) relabels the key carried by `b` exactly by `_next_state` (`nextKey`) — for all keys, not
+only the pivot and the low block;
+(2) `_next_state` is injective on keys (it is a composition of two involutions), so a pivot step
+never maps two keys together. -/
+theorem C06_pivot_step (r : Nat → Nat) (n lo d : Nat) (cv : Bool) (tcx : List Nat) (zero : Str)
+    (hr : ∀ i j, i < n → j < n → r i = r j → i = j) (hlo : lo ≤ n) (hd : d < lo)
+    (hdt : d ∉ tcx) (hnd : tcx.Nodup) (htn : ∀ k ∈ tcx, k < n) (hz : zero.length = n) :
+    (∀ b : Bits,
+      keyOf r n (stepB r n lo d cv tcx zero b) = nextKey d cv tcx lo zero (keyOf r n b)) ∧
+    (∀ s1 s2 : Str, d < s1.length → d < s2.length →
+      nextKey d cv tcx lo zero s1 = nextKey d cv tcx lo zero s2 → s1 = s2) :=
+  ⟨fun b => stepB_key r n lo d cv tcx zero hr hlo hd hdt hnd htn hz b,
+   fun s1 s2 h1 h2 h => nextKey_injective d cv tcx lo zero s1 s2 hd h1 h2 hdt h⟩
+
+example : (0 : Nat) < 2 ∧ (0 : Nat) ∉ [1, 2] ∧ ([1, 2] : List Nat).Nodup
+    ∧ (∀ k ∈ ([1, 2] : List Nat), k < 3) ∧ ([false, false, true] : Str).length = 3 := by decide
+
+/-- **C06 (pivot step — progress: pigeonhole and termination measure).**  Let the tracked dictionary
+hold `m` distinct `n`-character keys, `t ≥ 1`, `t ≤ m ≤ 2^t` (as for `t = ⌈log₂ m⌉`, `m ≥ 2`).
+Whenever `_get_index_nz` finds a key `nz` outside the low block, `_get_index_zero` does not return
+`None`: it finds a free index `zero` of length `n` that lies **in the low block** and is not a key
+(pigeonhole: at most `m − 1 < 2^t` keys are inside); after the pivot step the dictionary still holds
+`m` distinct `n`-character keys and the number of keys outside the low block has **strictly
+decreased** — so the `while` loop of `_define_initialize` stops after at most `m` passes. -/
+theorem C06_pivot_progress {α : Type} (n t m : Nat) (ht : 1 ≤ t) (hm : m ≤ 2 ^ t) (htm : t ≤ m)
+    (aux : Bool) (st : Dict α) (hinv : PInv n m st) (nz : Str)
+    (hnz : getIndexNz (n - t) st = some nz) :
+    ∃ zero, getIndexZero n m st = some zero ∧ zero.length = n ∧ inLow n t zero ∧ zero ∉ st.keys ∧
+      PInv n m (pivoting n t aux nz zero st).2.st ∧
+      highCount (n - t) (pivoting n t aux nz zero st).2.st < highCount (n - t) st := by
+  obtain ⟨_, hmem, hnzlen, hnlow, zero, hz, hzlen, hzlow, hzfree⟩ :=
+    step_indices n t m ht hm htm st hinv nz hnz
+  obtain ⟨h1, h2⟩ := step_inv n t m aux st hinv nz zero hmem hnzlen hnlow hzlen hzlow hzfree
+  exact ⟨zero, hz, hzlen, hzlow, hzfree, h1, h2⟩
+
+example : PInv (α := Nat) 3 2 [([true, false, true], ⟨7, 0, true⟩), ([false, false, true], ⟨9, 0, true⟩)]
+    ∧ getIndexNz (α := Nat) (3 - 1)
+        [([true, false, true], ⟨7, 0, true⟩), ([false, false, true], ⟨9, 0, true⟩)]
+        = some [true, false, true] :=
+  ⟨⟨by decide, by decide, rfl⟩, by decide⟩
+
+/-- **C06 (PivotInitialize, the whole circuit, `aux = False`).**  For every `n` and every dictionary
+`d` of `m ≥ 2` distinct `n`-character keys:
+* the constructor model succeeds, `pivotInit n false d = some out`, with `out.t = ⌈log₂ m⌉ ≤ n` and a
+  dense vector of `2^t` entries (free index found by pigeonhole, loop ends within `m` passes,
+  `dense_state[int(key,2)]` never out of range);
+* if the dense hand-off of this call behaves as property C01 states (`DenseOn`: on a state supported
+  on "wires `0 … t−1` are `0`" it puts `out.dense[int of those wires]` times the input amplitude of
+  the cleared label), then the whole circuit — dense initializer, then all pivot gates in inverse
+  order with `reverse_bits` (wire `q` = bit `q` of `int(key, 2)`) — maps every `ψ₀` supported on "the
+  `n` circuit wires are `0`" to `amp(d[key read off b]) · ψ₀(cleared b)` on every label `b`: the
+  dictionary is prepared exactly, amplitudes carried along unchanged, zero on every non-key.
+The opaque multi-controlled X gates denote the ideal gate (C04/C05). -/
+theorem C06_pivot_total {Θ R : Type} [CommRing R] [RotSem Θ R] [NumOps Θ] (iu : R)
+    (dn : List Nat → List (Amp Θ) → State R → State R) (amp : Amp Θ → R)
+    (hamp0 : amp zeroAmp = 0) (n : Nat) (d : Dict Θ) (hnd : d.keys.Nodup)
+    (hlen : ∀ k ∈ d.keys, k.length = n) (hm2 : 2 ≤ d.length) :
+    ∃ out : PivotOut Θ, pivotInit n false d = some out ∧ out.t = ceilLog2 d.length ∧
+      out.t ≤ n ∧ out.dense.length = 2 ^ out.t ∧
+      (DenseOn amp dn (List.range out.t) out.dense →
+        ∀ ψ0 : State R, (∀ b : Bits, (∃ w, w < n ∧ b w = true) → ψ0 b = 0) → ∀ b : Bits,
+          semSG iu dn out.gates ψ0 b
+            = amp ((d.lookup (keyOf (fun i => n - 1 - i) n b)).getD zeroAmp)
+              * ψ0 (clearWires (List.range n) b)) := by
+  obtain ⟨out, hout, h1, h2, h3⟩ := pivot_succeeds n d hnd hlen hm2
+  exact ⟨out, hout, h1, h2, h3, fun hdn ψ0 hψ0 b =>
+    pivot_total iu dn amp hamp0 n d hnd hlen hm2 out hout hdn ψ0 hψ0 b⟩
+
+/-- Non-vacuity of `C06_pivot_total`: `{001: 0.6, 110: 0.8i, 111: 0}` over `ℝ → ℂ`; the ideal dense
+initializer satisfies `DenseOn`, and the support hypothesis is met by a non-zero state. -/
+example : ∃ (d : Dict ℝ) (dn : List Nat → List (Amp ℝ) → State ℂ → State ℂ) (ψ0 : State ℂ),
+    d.keys.Nodup ∧ (∀ k ∈ d.keys, k.length = 3) ∧ 2 ≤ d.length ∧ Amp.toC zeroAmp = 0 ∧
+    (∀ ws v, DenseOn Amp.toC dn ws v) ∧
+    (∀ b : Bits, (∃ w, w < 3 ∧ b w = true) → ψ0 b = 0) ∧ ψ0 (fun _ => false) = 1 := by
+  refine ⟨[([false, false, true], ⟨0.6, 0, true⟩), ([true, true, false], ⟨0, 0.8, true⟩),
+      ([true, true, true], ⟨0, 0, true⟩)],
+    fun ws v ψ b => Amp.toC (v.getD (wiresIdx ws b) zeroAmp) * ψ (clearWires ws b),
+    fun b => if b 0 || b 1 || b 2 then 0 else 1, by decide, by decide, by decide, rfl,
+    fun _ _ _ _ _ => rfl, ?_, by simp⟩
+  rintro b ⟨w, hw, hb⟩
+  have : w = 0 ∨ w = 1 ∨ w = 2 := by omega
+  rcases this with rfl | rfl | rfl <;> simp [hb]
+
+/-- **C06 (PivotInitialize, the whole circuit, `aux = True`).**  For every `n` and every dictionary of
+`m ≥ 3` distinct `n`-character keys (the v-chain needs two controls, `t = ⌈log₂ m⌉ ≥ 2`): the
+constructor model succeeds, and — given `DenseOn` for the dense hand-off on the data wires
+`t−1 … 2t−2` — the whole circuit, in which every multi-controlled X is the `rccx` compute / `cx` /
+uncompute ladder of `_mcxvchain` on the `t − 1` auxiliaries (wires `0 … t−2`; `rccx` with its true
+relative phases, `iu² = −1`), maps every `ψ₀` supported on "all `n + t − 1` circuit wires are `0`"
+to `amp(d[key read off the data wires of b]) · ψ₀(b with the data wires cleared)`; in particular
+the result is `0` on every label with an auxiliary wire set: the auxiliaries are returned clean. -/
+theorem C06_pivot_total_aux {Θ R : Type} [CommRing R] [RotSem Θ R] [NumOps Θ] (iu : R)
+    (hi : iu * iu = -1) (dn : List Nat → List (Amp Θ) → State R → State R) (amp : Amp Θ → R)
+    (hamp0 : amp zeroAmp = 0) (n : Nat) (d : Dict Θ) (hnd : d.keys.Nodup)
+    (hlen : ∀ k ∈ d.keys, k.length = n) (hm3 : 3 ≤ d.length) :
+    ∃ out : PivotOut Θ, pivotInit n true d = some out ∧ out.t = ceilLog2 d.length ∧
+      2 ≤ out.t ∧ out.t ≤ n ∧ out.dense.length = 2 ^ out.t ∧
+      (DenseOn amp dn ((List.range out.t).map (· + (out.t - 1))) out.dense →
+        ∀ ψ0 : State R, (∀ b : Bits, (∃ w, w < n + (out.t - 1) ∧ b w = true) → ψ0 b = 0) →
+          ∀ b : Bits, semSG iu dn out.gates ψ0 b
+            = amp ((d.lookup (keyOf (fun i => n + (out.t - 1) - 1 - i) n b)).getD zeroAmp)
+              * ψ0 (clearWires ((List.range n).map (· + (out.t - 1))) b)) := by
+  obtain ⟨out, hout, h1, h2, h3, h4⟩ := pivot_succeeds_aux n d hnd hlen hm3
+  exact ⟨out, hout, h1, h2, h3, h4, fun hdn ψ0 hψ0 b =>
+    pivot_total_aux iu hi dn amp hamp0 n d hnd hlen hm3 out hout hdn ψ0 hψ0 b⟩
+
+/-- Non-vacuity of `C06_pivot_total_aux`: four distinct 4-character keys (`t = 2`, one auxiliary). -/
+example : ∃ d : Dict ℝ, d.keys.Nodup ∧ (∀ k ∈ d.keys, k.length = 4) ∧ 3 ≤ d.length
+    ∧ Complex.I * Complex.I = -1 ∧ Amp.toC zeroAmp = 0 :=
+  ⟨[([false, false, true, true], ⟨0.6, 0, true⟩), ([true, true, false, false], ⟨0, 0.8, true⟩),
+    ([true, true, true, true], ⟨0, 0, true⟩), ([false, true, true, false], ⟨0, 0, true⟩)],
+   by decide, by decide, by decide, Complex.I_mul_I, rfl⟩
 
 end Qclib
